@@ -205,6 +205,10 @@ class Pipeline:
         I = self.I
         add = I.add_model
         pl = self
+        I.bounds.update({'flen': (1, (1 << 32) - 1), 'leb128_len': (1, 10), 'bytes_before_code_section': (8, (1 << 32) - 1)})
+        for n_ in range(0, 40):
+            I.bounds['bytes_after_code_section_%d' % n_] = (8, (1 << 32) - 1)
+            I.bounds['module_bytes_%d_sections' % n_] = (8, (1 << 32) - 1)
         I.axioms_hook = leb_range_axioms
         I.len_hook = lambda I_, st, v: BV(module_len(I_, st, v), 'usize') if isinstance(v, Struct) and v.ty == 'enc:Module' else None
 
@@ -292,6 +296,19 @@ class Pipeline:
             I.write_ref(st, args[0], Struct('OperatorsReader', (ops, pos + 1), ('ops', 'pos')))
             cont(st, ok(ops[pos]))
         add(r'^(wasmparser::)?OperatorsReader::<.*>::(read|ensure_end)$', m_ops_read, 'OperatorsReader::read/ensure_end')
+
+        # ---- br_table immediates
+        def m_brtable(I, st, c, args, cont, depth, site):
+            v = I.deref(st, args[0])
+            name = c.rsplit('::', 1)[1]
+            if name == 'len':
+                return cont(st, bv(len(v.f[0]), 'u32'))
+            if name == 'default':
+                return cont(st, v.f[1])
+            if name == 'targets':
+                return cont(st, IterVal('owned', None, 0, items=tuple(ok(t) for t in v.f[0])))
+            raise Inconclusive(c)
+        add(r'^wasmparser::binary_reader::<impl wasmparser::BrTable<.*>>::(len|default|targets)$|^wasmparser::BrTable::<.*>::(len|default|targets)$', m_brtable, 'wasmparser::BrTable::len/default/targets = the described targets')
 
         # ---- function bodies
         def m_body_reader(I, st, c, args, cont, depth, site):
